@@ -1124,6 +1124,43 @@ fn twin_c08() -> R {
             Some(RecvBodyResult::Cleanup(c)) if c.must_close_connection() => {}
             _ => return Err("close delimited body not marked must-close".into()),
         }
+        // every schedule of (offered window, output space) pairs over a small menu that includes 0 for both: each read passes
+        // min(window, space) bytes through unchanged, the flow may proceed at any time and stays close-delimited
+        let data: Vec<u8> = (0..40u8).map(|i| b'a' + (i % 26)).chain(*b"\r\n0\r\n\r\nHTTP/1.1 200 OK\r\n\r\n").collect();
+        let menu = [(0usize, 4usize), (4, 0), (0, 0), (3, 8), (8, 3), (64, 64)];
+        let depth = if big() { 5 } else { 4 };
+        let mut idx = vec![0usize; depth];
+        'sched: loop {
+            n += 1;
+            let mut flow = to_recv_body(head.as_bytes())?;
+            let mut off = 0usize;
+            for &k in &idx {
+                let (w, space) = menu[k];
+                let win = &data[off..(off + w).min(data.len())];
+                let mut out = vec![0u8; space];
+                let (ci, co) = flow.read(win, &mut out).map_err(|e| format!("close delimited read: {:?}", e))?;
+                let want = win.len().min(space);
+                if ci != want || co != want || out[..co] != win[..co] {
+                    return Err(format!("close delimited: read moved ({}, {}) of window {} into space {}, want {} (schedule {:?})", ci, co, win.len(), space, want, idx.iter().map(|&k| menu[k]).collect::<Vec<_>>()));
+                }
+                if !flow.can_proceed() || flow.body_mode() != BodyMode::CloseDelimited {
+                    return Err(format!("close delimited: not ready / mode changed mid-body (schedule {:?})", idx.iter().map(|&k| menu[k]).collect::<Vec<_>>()));
+                }
+                off += ci;
+            }
+            match flow.proceed() {
+                Some(RecvBodyResult::Cleanup(c)) if c.must_close_connection() => {}
+                _ => return Err("close delimited body not marked must-close".into()),
+            }
+            let mut p = 0;
+            loop {
+                if p == depth { break 'sched; }
+                idx[p] += 1;
+                if idx[p] < menu.len() { break; }
+                idx[p] = 0;
+                p += 1;
+            }
+        }
     }
     Ok((n, n))
 }
